@@ -12,7 +12,11 @@ mod srv;
 mod sched;
 
 fn main() {
-    std::panic::set_hook(Box::new(|_| {}));
+    if std::env::var("VERIF_PANIC_LOG").is_ok() {
+        std::panic::set_hook(Box::new(|info| eprintln!("panic: {}", info)));
+    } else {
+        std::panic::set_hook(Box::new(|_| {}));
+    }
     let args: Vec<String> = std::env::args().collect();
     if args.len() > 1 && args[1] == "chars" {
         util::dump_chars();
